@@ -82,7 +82,9 @@ def rpc(rng, i):
             extra = {"async": True}
             if o in ("purge", "delete") and rng.random() < 0.4:
                 extra["via"] = "queue"      # through the Queue wrapper (nowait declare first)
-            steps.append(dict(op(h, o, q="q%d" % rng.randrange(9)), **extra))
+            # (a declare of "" asks for a server-named queue: the name comes back in the reply)
+            qn = "" if o == "declare" and rng.random() < 0.35 else "q%d" % rng.randrange(9)
+            steps.append(dict(op(h, o, q=qn), **extra))
             held.append((h, ch))
         rng.shuffle(held)
         if rng.random() < 0.5:
@@ -755,8 +757,13 @@ def midframe_close(rng, i):
     if rng.random() < 0.5:
         steps.append(op("B", "declare_nowait", q="behind"))
     steps.append({"do": "budget_used"})
-    what = rng.choice(["connclose", "connclose", "chclose", "none"])
-    if what == "connclose":
+    hb = i % 10 == 3
+    what = "hbstall" if hb else rng.choice(["connclose", "connclose", "chclose", "none"])
+    if what == "hbstall":
+        # heartbeats negotiated (1 s) and the stall lasts longer than the interval: the client's tx timer
+        # fires while the head of its buffer is the rest of a half-written frame
+        steps.append({"do": "sleep", "ms": 1250})
+    elif what == "connclose":
         steps.append(srv({"k": "connclose", "code": 320, "text": "CONNECTION_FORCED - x"}))
     elif what == "chclose":
         steps.append(srv({"k": "chclose", "ch": ids["B"], "code": 404, "text": "NOT_FOUND"}))
@@ -769,7 +776,8 @@ def midframe_close(rng, i):
     steps.append(op("A", "qos"))
     steps.append(op("B", "qos"))
     steps.append({"do": "closeconn"})
-    return {"kind": "backlog-midframe", "cfg": {"tune": [0, fm, 0]}, "steps": steps}
+    cfg = {"tune": [0, fm, 1], "heartbeat": 1} if hb else {"tune": [0, fm, 0]}
+    return {"kind": "backlog-midframe", "cfg": cfg, "steps": steps}
 
 
 def backlog(rng, i):
@@ -1009,17 +1017,19 @@ def crash_scenarios(baseline_len, baseline_writes, hs_len, tier, rng):
     for o in offsets:
         for kind in (["eof", "reset"] if tier == "thorough" else [rng.choice(["eof", "reset"])]):
             res.append({"kind": "crash-offset", "fault": kind, "at": o,
-                        "cfg": {"log_io": True, "fault_at": o, "fault_kind": kind},
+                        "cfg": {"log_io": True, "fault_at": o, "fault_kind": kind, "err_kind": rng.randrange(6)},
                         "steps": rich_session(o % 2)})
     for k in range(1, baseline_writes + 2):
         res.append({"kind": "crash-write", "fault": "werr", "at": k,
-                    "cfg": {"log_io": True, "fail_write_at": k}, "steps": rich_session(k % 2)})
+                    "cfg": {"log_io": True, "fail_write_at": k, "err_kind": rng.randrange(6)},
+                    "steps": rich_session(k % 2)})
     for i in range(2, len(steps0)):
         for kind in ["garbage", "eof", "reset", "werr"]:
             if tier == "quick" and kind in ("eof", "reset") and i % 2:
                 continue
             st = list(steps0[:i]) + [{"do": "fault", "kind": kind}] + list(steps0[i:])
-            res.append({"kind": "crash-step", "fault": kind, "at": i, "cfg": {"log_io": True}, "steps": st})
+            res.append({"kind": "crash-step", "fault": kind, "at": i,
+                        "cfg": {"log_io": True, "err_kind": rng.randrange(6)}, "steps": st})
     return res
 
 
